@@ -9,6 +9,9 @@
 //!   r2 = the same applied to the text of r1 (print, parse again, print)
 //!   r3 = the selector emitted for `S { x: y }` (expanded style)
 //!   r4 = `inspect(selector-parse("S"))` evaluated in SCSS, only when S has no `\`, `"`, `#{`
+//!   r5 = the selector emitted for `S { x: y }` in compressed style
+//!   r6 = r5 parsed again and printed (as r1 is)
+//!   r7 = r3 parsed again and printed (as r1 is)
 use crate::util::*;
 use rsass::css::{CssString, SelectorSet, Value};
 use rsass::output::{Format, Style};
@@ -51,6 +54,19 @@ pub fn run(op: &str, f: &[&str]) -> Option<String> {
         Some(t) => part(parse_print(t)),
         None => "-".to_string(),
     };
+    let cfmt = Format {
+        style: Style::Compressed,
+        precision: 10,
+    };
+    let r5t = match compile_str(&format!("{s} {{ x: y; }}\n"), cfmt) {
+        Outcome::Ok(b) => {
+            let css = String::from_utf8_lossy(&b).into_owned();
+            let css = css.strip_prefix('\u{feff}').unwrap_or(&css);
+            let css = css.strip_prefix("@charset \"UTF-8\";").unwrap_or(css);
+            css.find('{').map(|p| css[..p].to_string())
+        }
+        Outcome::Err(_) => None,
+    };
     let r3 = match compile_str(&format!("{s} {{ x: y; }}\n"), fmt()) {
         Outcome::Ok(b) => {
             let css = String::from_utf8_lossy(&b).into_owned();
@@ -70,5 +86,18 @@ pub fn run(op: &str, f: &[&str]) -> Option<String> {
             Outcome::Err(_) => "err".to_string(),
         }
     };
-    Some(format!("{}|{}|{}|{}", part(r1), r2, r3, r4))
+    let reparse = |t: &Option<String>| match t {
+        Some(t) => part(parse_print(t)),
+        None => "-".to_string(),
+    };
+    let r3t = r3
+        .strip_prefix("ok:")
+        .map(|h| String::from_utf8_lossy(&unhex(h)).into_owned());
+    let r6 = reparse(&r5t);
+    let r7 = reparse(&r3t);
+    let r5 = match &r5t {
+        Some(t) => format!("ok:{}", hex(t.as_bytes())),
+        None => "err".to_string(),
+    };
+    Some(format!("{}|{}|{}|{}|{}|{}|{}", part(r1), r2, r3, r4, r5, r6, r7))
 }
